@@ -33,7 +33,7 @@ func World(t *T, s *model.Schema, d *model.Doc, opName string, vars map[string]*
 	if chance(t, 40, "hasNulls") {
 		w.NullRate = rapid.SampledFrom([]int{3, 6, 11}).Draw(t, "nullRate")
 	}
-	w.MaxList = intn(t, 1, 3, "maxList")
+	w.MaxList = 1 + uniform(t, 4, "maxList") // 1..4, unbiased: lists of several elements are where runtime types mix
 	regime := "propagate"
 	if o.NoPropagation || (!o.NoThunks && chance(t, 50, "thunkRegime")) {
 		regime = "thunks"
@@ -50,8 +50,8 @@ func World(t *T, s *model.Schema, d *model.Doc, opName string, vars map[string]*
 		n := 0
 		if o.Adversarial > 0 {
 			n = 1 + len(dry.Calls)*o.Adversarial/100
-		} else if chance(t, 35, "someOutcomes") {
-			n = intn(t, 1, 3, "nOutcomes")
+		} else if chance(t, 55, "someOutcomes") {
+			n = 1 + uniform(t, 4, "nOutcomes")
 		}
 		for i := 0; i < n; i++ {
 			c := dry.Calls[uniform(t, len(dry.Calls), "callIdx")]
@@ -112,9 +112,9 @@ func World(t *T, s *model.Schema, d *model.Doc, opName string, vars map[string]*
 				if ty.Nullable().Named() {
 					switch {
 					case ty.Name == "Int":
-						kinds = append(kinds, "bigint", "badleaf", "bigtext")
+						kinds = append(kinds, "bigint", "badleaf", "bigtext", "nantext")
 					case ty.Name == "Float":
-						kinds = append(kinds, "nan", "badleaf", "nantext")
+						kinds = append(kinds, "nan", "badleaf", "nantext", "inftext")
 						if o.AllowInf {
 							kinds = append(kinds, "inf")
 						}
@@ -169,10 +169,10 @@ func World(t *T, s *model.Schema, d *model.Doc, opName string, vars map[string]*
 					} else if et.Name == "Int" || et.Name == "Float" {
 						ek = "badleaf" // (String / Boolean / ID digest any value: the property is silent there)
 						if et.Name == "Float" && chance(t, 50, "elemNaNText") {
-							ek = "nantext"
+							ek = pick(t, []string{"nantext", "inftext"}, "elemTextKind")
 						}
 						if et.Name == "Int" && chance(t, 50, "elemBigText") {
-							ek = pick(t, []string{"bigtext", "bigint"}, "elemBigKind")
+							ek = pick(t, []string{"bigtext", "bigint", "nantext"}, "elemBigKind")
 						}
 					}
 				}
